@@ -415,8 +415,13 @@ pub struct QueryState<'a> {
 
 impl Drop for QueryState<'_> {
     fn drop(&mut self) {
-        // FIXME: This may be wrong if the iterator is not fully consumed, but from testing it
-        // seems fine. Is this really ok?
+        // If the iterator was not fully consumed, the query's own choice points are still
+        // above the stub: discard them first, so that popping the stub restores the state
+        // from before `run_query` exactly as it does after a fully consumed query.
+        if self.machine.machine_st.b > self.stub_b {
+            self.machine.machine_st.b = self.stub_b;
+        }
+
         self.machine.trust_me();
     }
 }
